@@ -187,6 +187,26 @@ func runC20(c *engine.Ctx, tier string) {
 	v3UpdateTables(c, vp)
 	// (12) what the v3 configuration store persists of a value map (rollback values carry older indexes)
 	persistTable(c, "C20.12", pkgStoreCfgV3)
+	// (13) the candidate a change is validated on is a copy: a refused change leaves the committed record alone
+	{
+		o := c.Custom("C20.13", "alias(validation scratch)", "every call of applyChangeToConfig in the v3 transaction controller works on a map the calling function allocated itself (make(...)), never on a field of the configuration record",
+			"the FAILED branch of a change persists the configuration record: rejected values merged into Committed.Values themselves become committed, and later the rollback values of the next change on that path")
+		for _, p := range vp {
+			for i := range p.Events {
+				e := &p.Events[i]
+				if e.Kind != engine.EvCall || e.CalleeName != "controller/v3/transaction.applyChangeToConfig" || len(e.Args) != 3 {
+					continue
+				}
+				o.Site(c.P.Pos(e.Pos))
+				o.Eval(1)
+				if !strings.HasPrefix(e.Args[0], "make(map[string]config/v3.PathValue") {
+					o.Fail(&engine.Violation{Key: "applyChangeToConfig|works on " + stripVer(e.Args[0]), Pos: c.P.Pos(e.Pos), Func: engine.FuncChain(p, i),
+						Msg: "applyChangeToConfig is applied to " + c.Render(e.Args[0]) + ", not to a map allocated by the function: the change is merged into the record before it was validated"})
+				}
+			}
+		}
+		o.Done(2)
+	}
 }
 
 func wroteBefore(p *engine.Path, i int, field, rhs string) bool {
